@@ -20,7 +20,7 @@ import ast
 import re
 
 from mmsa import au, cfg as cfgmod, dataflow, kinds as kindsmod, pathcond, types as typesmod
-from mmsa.core import Undecided, norm, walk_no_nested
+from mmsa.core import Undecided, dotted, norm, walk_no_nested
 from mmsa.types import FuncCtx
 
 MM = 'tbrmatchedmarkets.TBRMatchedMarkets'
@@ -444,11 +444,17 @@ def r1_raises(rep, closure):
     for s in walk_no_nested(f.node):
       if isinstance(s, ast.Raise):
         n += 1
-        exc = s.exc
-        exn = norm(exc.func) if isinstance(exc, ast.Call) else (norm(exc) if exc is not None else 're-raise')
+        exn = au.raised_class(R1_REPO[0], f, s)
+        if exn is None:
+          rep.check3(None, 'R1a/raise-sites', '%s raises ValueError' % f.name, f.qualname, norm(s)[:100], '', f.loc(s),
+                     why_open='the raised object `%s` is not followed to the construction of an exception' % norm(s.exc)[:60])
+          continue
         rep.check(exn in ('ValueError', 're-raise'), 'R1a/raise-sites', '%s raises ValueError' % f.name, f.qualname, norm(s)[:100],
                   '%s, reachable from the searches, raises %s: an exception other than ValueError escapes' % (f.qualname, exn), f.loc(s))
   rep.floor('explicit raise sites reachable from the searches', n, 12)
+
+
+R1_REPO = [None]
 
 
 def r1_lists(rep, closure, T):
@@ -669,6 +675,12 @@ def _empty_reaches(B, f, node, S, implicit=(), depth=3, chain=()):
   if status == 'unknown':
     return 'undecided', 'the test `%s` on %s in %s is not understood' % (wit, S, f.name)
   root = S.split('.')[0].split('[')[0]
+  # the collection is handed to repository code that is not followed before the division: a rejection of the empty
+  # collection may live there
+  dl_ = [(c_, w_) for c_, w_ in au.delegations(R1_REPO[0], f)
+         if any(norm(a_) == S or any(isinstance(x_, ast.Name) and x_.id == root for x_ in ast.walk(a_)) for a_ in list(c_.args) + [k_.value for k_ in c_.keywords])] if R1_REPO[0] is not None else []
+  if dl_:
+    return 'undecided', '%s is handed to %s before the division: whether an empty one is rejected there is not followed' % (S, dl_[0][1])
   if S in f.params:
     if not f.name.startswith('_') or f.name.startswith('__'):
       return 'violation', 'an empty %s passed to the public %s reaches the division (%s)' % (S, here, wit)
@@ -896,8 +908,12 @@ def r2_termination(repo, rep, closure):
       if isinstance(s, ast.For):
         n_loops += 1
         it = norm(s.iter)
-        bad = re.search(r'itertools\.(count|cycle|repeat)\(', it) or it.startswith('iter(')
+        bad = re.search(r'itertools\.(count|cycle|repeat)\(', it)
         exits = any(isinstance(x, (ast.Break, ast.Return, ast.Raise)) for b_ in s.body for x in ast.walk(b_))
+        if isinstance(s.iter, ast.Call) and isinstance(s.iter.func, ast.Name) and s.iter.func.id == 'iter' and len(s.iter.args) == 2:
+          # iter(callable, sentinel): ends when the callable returns the sentinel -- a fact about the callable
+          rep.undecided('R2/termination', '%s: for ... in %s' % (f.name, it[:60]), 'the loop ends when `%s` returns the sentinel: whether it always does is not decided' % norm(s.iter.args[0])[:40], f.loc(s))
+          continue
         if bad and exits:
           rep.undecided('R2/termination', '%s: for ... in %s' % (f.name, it[:60]), 'the iterator is unbounded; whether the exit inside the loop is always reached is not decided', f.loc(s))
           continue
@@ -1035,6 +1051,7 @@ def run(repo, rep, tier):
   rep.extra['call_graph_edges'] = len(edges)
   K = kindsmod.Kinds(repo, T)
   B = Bounds(repo, T, closure)
+  R1_REPO[0] = repo
   r1_raises(rep, closure)
   r1_lists(rep, closure, T)
   r1_division(rep, closure, T, K, B)
